@@ -1,6 +1,6 @@
 (* C10 - The DAG stays acyclic with a gap-free topological order.  Property theorems only. *)
 From Coq Require Import List NArith Bool Permutation.
-From PieV Require Import Model.Dag Proofs.DagLib Proofs.DagWF Proofs.DagPath Proofs.DagAddEdge Proofs.DagRun.
+From PieV Require Import Model.Dag Proofs.DagLib Proofs.DagWF Proofs.DagPath Proofs.DagAddEdge Proofs.DagRun Proofs.DagFuel Proofs.DagNoFuel.
 Import ListNotations.
 Open Scope N_scope.
 
@@ -56,3 +56,29 @@ Example C10_run_ok_witness :
                      GAddEdge 3 2 9; GAddEdge 1 0 4; GAddEdge 3 1 5; GRemoveOut 3; GRemoveEdge 1 0].
 Proof. vm_compute. repeat split; discriminate. Qed.
 Print Assumptions C10_run_ok_witness.
+
+
+(* ---- the fuel premise is always true (Proofs/DagFuel.v, DagNoFuel.v): the model's bounded searches never run out ---- *)
+(* both depth-first searches of add_edge terminate within the model's fuel on every well-formed graph (potential argument
+   over the LIFO stack: a node may be pushed several times, but when a second copy is popped everything its first copy pushed
+   has been popped) *)
+Theorem C10_search_fuel_suffices : forall (E : Type) (g : dag E) s d e, WF g -> fst (add_edge g s d e) <> AFuel.
+Proof. exact @add_edge_no_fuel. Qed.
+Check C10_search_fuel_suffices : forall (E : Type) (g : dag E) s d e, WF g -> fst (add_edge g s d e) <> AFuel.
+Print Assumptions C10_search_fuel_suffices.
+
+(* hence the invariant after EVERY operation sequence, with no premise at all *)
+Theorem C10_invariant_all_sequences : forall (E : Type) (ops : list (gop E)), WF (grun ops).
+Proof. intros E ops. apply grun_WF. apply run_ok_always; [apply WF_empty|intros n []]. Qed.
+Check C10_invariant_all_sequences : forall (E : Type) (ops : list (gop E)), WF (grun ops).
+Print Assumptions C10_invariant_all_sequences.
+
+(* and: an insertion is rejected as a cycle exactly when the destination already reaches the source *)
+Theorem C10_cycle_iff_all : forall (E : Type) (g : dag E) s d e,
+  WF g -> live g s = true -> live g d = true ->
+  (fst (add_edge g s d e) = AErr CycleDetected <-> s = d \/ path g d s).
+Proof. intros E g s d e W Ls Ld. apply add_edge_cycle_iff; try assumption. apply add_edge_no_fuel. exact W. Qed.
+Check C10_cycle_iff_all : forall (E : Type) (g : dag E) s d e,
+  WF g -> live g s = true -> live g d = true ->
+  (fst (add_edge g s d e) = AErr CycleDetected <-> s = d \/ path g d s).
+Print Assumptions C10_cycle_iff_all.
